@@ -3,8 +3,12 @@ package router
 // C19 / C13: receiver resolution from the routing tag, for every tag value.
 
 import (
+	"encoding/json"
+
+	"github.com/prometheus/client_golang/prometheus"
 	"github.com/resonatehq/resonate/internal/kernel/bus"
 	"github.com/resonatehq/resonate/internal/kernel/t_aio"
+	"github.com/resonatehq/resonate/internal/metrics"
 	"github.com/resonatehq/resonate/internal/vx"
 	"github.com/resonatehq/resonate/pkg/promise"
 	"github.com/resonatehq/resonate/pkg/receiver"
@@ -47,5 +51,51 @@ func VH_RT_Tag() {
 		vx.Assert(!vx.JsonUnknownFields(v, (*receiver.Recv)(nil)), "C19:json-with-foreign-members-does-not-route")
 	} else {
 		vx.Reach("json-not-a-receiver")
+	}
+}
+
+// VH_RT_New: the real constructor turns the configured source table into the routing functions: a
+// configured tag source routes on its own key, an unknown source type is a configuration error, and the
+// built-in source on "resonate:invoke" is present exactly when no source named "default" is configured.
+func VH_RT_New() {
+	name, key := vx.String("name"), vx.String("key")
+	typ := []string{"tag", "bogus"}[vx.Choose(2)]
+	vx.Assume(key != "resonate:invoke")
+	data, _ := json.Marshal(&TagSourceConfig{Key: key})
+	cfg := &Config{Size: 1, Workers: 1}
+	n := vx.Choose(2)
+	if n == 1 {
+		cfg.Sources = []SourceConfig{{Name: name, Type: typ, Data: data}}
+	}
+	r, err := New(nil, metrics.New(prometheus.NewRegistry()), cfg)
+	if n == 1 && typ == "bogus" {
+		vx.Reach("unknown-source-type")
+		vx.Assert(err != nil && r == nil, "C19:unknown-source-type-is-a-configuration-error")
+		return
+	}
+	vx.Assert(err == nil && r != nil, "C19:router-constructs")
+	route := func(tag, val string) *t_aio.RouterCompletion {
+		p := &promise.Promise{Id: "p", State: promise.Pending, Tags: map[string]string{tag: val}}
+		cqes := r.Process([]*bus.SQE[t_aio.Submission, t_aio.Completion]{{Id: "r", Submission: &t_aio.Submission{Kind: t_aio.Router, Tags: map[string]string{},
+			Router: &t_aio.RouterSubmission{Promise: p}}, Callback: func(*t_aio.Completion, error) {}}})
+		vx.Assert(len(cqes) == 1 && cqes[0].Completion != nil && cqes[0].Completion.Router != nil, "C19:router-always-answers")
+		return cqes[0].Completion.Router
+	}
+	v := vx.String("value")
+	vx.Assume(!vx.JsonValid(v))
+	// the built-in source
+	byDefault := route("resonate:invoke", v)
+	builtin := !(n == 1 && name == "default")
+	vx.Assert(byDefault.Matched == builtin, "C19:builtin-source-present-iff-no-source-named-default")
+	if byDefault.Matched {
+		vx.Reach("builtin-source")
+		vx.Assert(vx.BytesStr(byDefault.Recv) == vx.JsonOfString(v), "C19:plain-string-kept-as-logical-name")
+	}
+	// the configured source
+	byKey := route(key, v)
+	vx.Assert(byKey.Matched == (n == 1), "C19:configured-tag-source-routes-on-its-key")
+	if byKey.Matched {
+		vx.Reach("configured-source")
+		vx.Assert(vx.BytesStr(byKey.Recv) == vx.JsonOfString(v), "C19:plain-string-kept-as-logical-name")
 	}
 }
